@@ -193,18 +193,19 @@ P("C10", "proof", "Lean 4 theorems for Unix (laws F/R + append lemma) + model/co
   "mirror image (unix_ends_with_iff); strip_prefix succeeds exactly when starts_with holds "
   "(unix_strip_iff_starts), the remainder's components are the path's after the base's (unix_strip_comps) and the "
   "base joined with the remainder equals the path (unix_strip_join); for a relative b and non-empty a, a joined with "
-  "b starts with a and stripping a yields b's components minus a leading `.` (unix_join_starts_strip). For BOTH encodings and all byte strings: starts_with / ends_with hold exactly when the component texts of the base are a leading / trailing run of the path's component texts, and strip_prefix succeeds exactly when starts_with holds (C10b.starts_with_iff_texts, ends_with_iff_texts, strip_iff_starts) — a prefix component's text being its raw spelling is K2. For Windows paths that do not start like a prefix the tests are exactly leading / trailing runs of components, in particular for equal paths (win_starts_with_iff, win_ends_with_iff, win_starts_ends_of_eq), and a join starts with its base (win_join_starts_pf, win_join_starts_prefixed, win_join_name_starts); when the stripped remainder does not start like a prefix either, the path's components are the base's followed by the remainder's and the base joined with the remainder equals the path (C10c.win_strip_comps_pf, win_strip_join_pf), and join-then-strip gives back the argument's components minus a leading `.` (win_join_strip_pf). The same for a path and base that both carry a complete non-verbatim prefix (disk, device namespace, UNC with a share), whatever follows it and however the rest is spelled: C10c.win_strip_split_prefixed, win_strip_join_prefixed (a rooted remainder after a bare prefix included).",
+  "b starts with a and stripping a yields b's components minus a leading `.` (unix_join_starts_strip). For BOTH encodings and all byte strings: starts_with / ends_with hold exactly when the component texts of the base are a leading / trailing run of the path's component texts, and strip_prefix succeeds exactly when starts_with holds (C10b.starts_with_iff_texts, ends_with_iff_texts, strip_iff_starts) — a prefix component's text being its raw spelling is K2. For Windows paths that do not start like a prefix the tests are exactly leading / trailing runs of components, in particular for equal paths (win_starts_with_iff, win_ends_with_iff, win_starts_ends_of_eq), and a join starts with its base (win_join_starts_pf, win_join_starts_prefixed, win_join_name_starts); when the stripped remainder does not start like a prefix either, the path's components are the base's followed by the remainder's and the base joined with the remainder equals the path (C10c.win_strip_comps_pf, win_strip_join_pf), and join-then-strip gives back the argument's components minus a leading `.` (win_join_strip_pf). The same for a path and base that both carry a complete non-verbatim prefix (disk, device namespace, UNC with a share), whatever follows it and however the rest is spelled: C10c.win_strip_split_prefixed, win_strip_join_prefixed (a rooted remainder after a bare prefix included). Under a complete VERBATIM prefix on both (Props/C10d): the path's components are the base's followed by a rest, and the base joined with the remainder is the verbatim scan of the base's components and that rest — the statement's 'up to the normalisation that joining onto a verbatim prefix applies' — for a non-empty remainder that does not start like a prefix and contains no `/` (win_strip_join_verbatim; the scan is blind to `.` markers: fold_dropCur, dropCur_compsT).",
   "Partial: on Windows the statement is false in two known ways — prefix components are compared by spelling (K2, "
   "proved as win_starts_with_K2_witness) and a remainder / base beginning with two separators re-parses as a UNC "
-  "prefix (K3) — and the verbatim-prefixed cases (where re-reading the remainder changes what `.` and `/` mean) are not proved; "
+  "prefix (K3) — and names containing `/` under an exact `\\\\?\\` prefix (not well-formed: `/` is forbidden in Windows names) are outside the theorem; "
   "the oracle decides them on pairs of well-formed paths with re-spellings, K2/K3 set aside by narrow class "
   "predicates. UTF-8 / typed forms: oracle. Model=code by differential testing.",
   theorems=["TP.C10.unix_starts_with_iff", "TP.C10.unix_starts_with_of_eq", "TP.C10.unix_ends_with_iff", "TP.C10.unix_strip_iff_starts",
             "TP.C10.unix_strip_comps", "TP.C10.unix_strip_join", "TP.C10.unix_join_starts_strip", "TP.C10.win_starts_with_K2_witness",
             "TP.C10b.starts_with_iff_texts", "TP.C10b.ends_with_iff_texts", "TP.C10b.strip_iff_starts", "TP.C10b.win_starts_with_iff", "TP.C10b.win_ends_with_iff", "TP.C10b.win_starts_ends_of_eq", "TP.C10b.win_join_starts_pf", "TP.C10b.win_join_starts_prefixed", "TP.C10b.win_join_name_starts",
             "TP.C10c.win_strip_comps_pf", "TP.C10c.win_strip_join_pf", "TP.C10c.win_join_strip_pf",
-            "TP.C10c.win_strip_split_prefixed", "TP.C10c.win_strip_join_prefixed"],
-  modules=["TypedPathVerif.Props.C10b", "TypedPathVerif.Props.C10c"],
+            "TP.C10c.win_strip_split_prefixed", "TP.C10c.win_strip_join_prefixed",
+            "TP.C10d.win_strip_join_verbatim", "TP.C10d.fold_dropCur", "TP.C10d.dropCur_compsT"],
+  modules=["TypedPathVerif.Props.C10b", "TypedPathVerif.Props.C10c", "TypedPathVerif.Props.C10d"],
   rule=NONTRIV + "pairs (path, every byte-prefix and suffix of it, re-spellings, random others); non-trivial = proper non-empty component prefix", design_ref="§5 C10")
 
 P("C11", "proof", "Lean 4 theorems for both encodings (render lemma: pushing the folded components re-parses to them; Unix append lemma; Windows append lemma on stable prefixes) + model/code correspondence; verbatim-prefixed Windows paths by fold oracle",
